@@ -112,7 +112,7 @@ def r3_carry(ctx):
             ploc = [l for l, n in b.names.items() if n == "parser"]
             w = sym.Walker(b)
             inloop = set()
-            for h, ls in w.loop_assigned.items():
+            for h, ls in w.loop_written.items():
                 inloop |= ls
             ctx.ob("R3", "read_with[%s]:parser-not-reset" % kind, bool(ploc) and not (set(ploc) & inloop), "the scanner state is created once, outside the refill loop, and only updated through feed(&mut parser)", config=cfg)
             fed = any(name_is(c[2], "feed") and strip_wrappers(c[3][0])[0] in ("arg", "pl", "loc", "phi") for p in ctx.paths(b) for c in calls(p))
@@ -122,7 +122,7 @@ def r3_carry(ctx):
             bloc = [l for l, n in b.names.items() if n == "bang_type"]
             w = sym.Walker(b)
             inloop = set()
-            for h, ls in w.loop_assigned.items():
+            for h, ls in w.loop_written.items():
                 inloop |= ls
             ctx.ob("R3", "read_bang_element[%s]:kind-not-reset" % kind, bool(bloc) and not (set(bloc) & inloop), "the construct kind (with the DOCTYPE balance) is determined once before the refill loop", config=cfg)
             okarg = False
